@@ -1269,6 +1269,8 @@ class Interp:
 
     def child_ctx(self, ctx, module, owner, selfname, qual, fnode=None):
         c = {"module": module, "owner": owner, "selfname": selfname, "qual": qual, "fnode": fnode}
+        if ctx and ctx.get("$raw_getattr") and qual in ("Parameter.__getattribute__",):
+            c["$raw_getattr"] = True
         for k in ("verifying", "loops", "opts", "obligations"):
             c[k] = ctx.get(k) if ctx else None
         if c["opts"] is None:
